@@ -40,10 +40,11 @@
  *             set_ownkey:K:V  get_ownkey:K  remove_ownkey:K
  *                                            -- p as above: set(p->key, V) / get(p->key) / remove(p->key)
  *             set_pair:K:V                   -- pair form with a pair of the caller's: set(objpair(K,V), NULL)
- *             get_keys_into:C  get_values_into:C  get_pairs_into:C      (C = A | L | D)
+ *             get_keys_into:C[:N]  get_values_into:C[:N]  get_pairs_into:C[:N]      (C = A | L | D, N = 0..5)
  *                                            -- non-NULL form: the caller passes a list of class array / linked_list /
- *                                               dlinked_list that already holds the object "pre"; ret = [TX..] resp.
- *                                               [pre,PR..] read from that list ('?' if another list came back)
+ *                                               dlinked_list that already holds the object "pre" (no N) or the N objects
+ *                                               pa, pb, ..; ret = [TX..] resp. [pa,pb,PR..] read from that list: the ideal
+ *                                               result is  old ++ keys  ('?' if another list came back)
  *   second use of a copy (all three interfaces), at most one `fork` per history:
  *     fork                                   -- d = dup(c); from now on operations act on the COPY d, the
  *                                               original is kept, read back after every step and deleted
@@ -104,6 +105,25 @@
  *     X = E for list and vector, PR for map.
  *   ' ; end' is printed after the container and all handed-back objects were deleted without a
  *   sanitizer report (a corrupt structure usually faults there at the latest).
+ *
+ * DEPTH stratum (implementation-side oracle; the extracted models cannot run containers this large):
+ *   ops   ::= 'deep:' N ( ';' scenario )*         -- N = 0 .. 4 000 000
+ *   The container is filled with N elements through the interface in the way that costs O(1) per step for the
+ *   class where the interface has one - list: array / dlinked_list append, linked_list prepend; vector: linked_list
+ *   and array insert in descending key order (array: one memmove per step), dlinked_list ascending; map: set, which
+ *   probes the whole map first in all three classes (linear per step: maps stay below ~2*10^4 entries) - with the
+ *   fixed-width keys k5(2p+2) for position p (values 'v' k5(2p+2)).  Each scenario checks its results against the
+ *   harness's own array of the N objects (count, identity at first / middle / last position, full order in sweeps and
+ *   to_array) and leaves the container as it found it:
+ *     list  : get iterate to_array dup reverse find_last remove_last remove_at_last insert_last
+ *     vector: iterate to_array dup find_last insert_last remove_last
+ *     map   : iterate get_keys get_values get_pairs get_keys_into get_values_into get_pairs_into (receiving list of
+ *             class dlinked_list) dup get_last set_last remove_last
+ *   result ::= ( name '=' ( 'ok' | 'BAD(' what ')' ) '|' [ 'stk=' int ] ' ; ' )* 'end'     names: build, the scenarios, del
+ *   `name=` is flushed before the scenario runs, so a crash reads  name=FAULT:...  ; after a BAD the remaining
+ *   scenarios are skipped.  stk (only with LV_CONT_STK=1) = stack high-water mark of the scenario in bytes, measured by
+ *   painting 512 KB below the frame: a value that grows with N shows a recursion per element long before it overflows.
+ *   The stack limit is the default 8 MB (lowered to it if the environment allows more); watchdog 60 s (N > 500 000: 120 s).
  *
  * FAULTS.  Cases run in a forked child.  When the child dies (sanitizer report, signal, 30 s
  * watchdog per case) the parent completes the line of the case that was running with
@@ -522,12 +542,19 @@ static int do_map_op(spif_obj_t c, int na, char **a)
     else if (IS("get_values") && na == 1) { print_list_and_del(SPIF_MAP_GET_VALUES(c, (spif_list_t) NULL), pt); }
     else if (IS("get_pairs") && na == 1) { print_list_and_del(SPIF_MAP_GET_PAIRS(c, (spif_list_t) NULL), pp); }
     else if (IS("iterate") && na == 1) { n = (int) (size_t) SPIF_MAP_COUNT(c); sweep(SPIF_MAP_ITERATOR(c), sane(n) ? n : 0, pp); }
-    else if ((IS("get_keys_into") || IS("get_values_into") || IS("get_pairs_into")) && na == 2) {
-        /* non-NULL form: the caller supplies the list (of class A / L / D, already holding one object) to append to */
+    else if ((IS("get_keys_into") || IS("get_values_into") || IS("get_pairs_into")) && (na == 2 || na == 3)) {
+        /* non-NULL form: the caller supplies the list (of class A / L / D) to append to; it already holds the one
+           object "pre" (no count given) or the N objects pa, pb, .. (N = 0..5), which must stay in front, in order */
         spif_list_t l = (a[1][0] == 'A') ? SPIF_LIST_NEW(array) : (a[1][0] == 'L') ? SPIF_LIST_NEW(linked_list) : SPIF_LIST_NEW(dlinked_list);
         spif_list_t got;
-        int i;
-        SPIF_LIST_APPEND(l, mk_str("pre"));
+        int i, held = 1;
+        if (na == 2) SPIF_LIST_APPEND(l, mk_str("pre"));
+        else {
+            char t[3] = "pa";
+            held = atoi(a[2]);
+            if (held < 0 || held > 5) { SPIF_LIST_DEL(l); return 0; }
+            for (i = 0; i < held; i++) { t[1] = (char) ('a' + i); SPIF_LIST_APPEND(l, mk_str(t)); }
+        }
         got = IS("get_keys_into") ? SPIF_MAP_GET_KEYS(c, l) : IS("get_values_into") ? SPIF_MAP_GET_VALUES(c, l) : SPIF_MAP_GET_PAIRS(c, l);
         if (got != l) putchar('?');
         else {
@@ -535,7 +562,7 @@ static int do_map_op(spif_obj_t c, int na, char **a)
             putchar('[');
             for (i = 0; sane(n) && i < n; i++) {
                 if (i) putchar(',');
-                if (i == 0 || !IS("get_pairs_into")) pt(SPIF_LIST_GET(l, i)); else pp(SPIF_LIST_GET(l, i));
+                if (i < held || !IS("get_pairs_into")) pt(SPIF_LIST_GET(l, i)); else pp(SPIF_LIST_GET(l, i));
             }
             putchar(']');
         }
@@ -605,6 +632,472 @@ static int do_fork(void)
     return 1;
 }
 
+/* ---- DEPTH stratum ------------------------------------------------------------------------------
+ * `deep:N` as the FIRST operation of a history switches the case to the depth mode: the container is
+ * filled with N elements through the interface in the way that costs O(1) per step for the class where
+ * there is one (see the grammar above), the element table is not used (positions are checked against
+ * the harness's own array of the N objects), and the following operation names are scenarios that
+ * leave the container as they found it.  The oracle is here, on the implementation side: every
+ * scenario prints `name=ok` or `name=BAD(what)`; the ideal side prints `ok` for every name. */
+#include <sys/resource.h>
+#include <alloca.h>
+
+static long dn;                       /* number of elements */
+static spif_obj_t *dobj;              /* dobj[p] = the object at position p (list, vector); maps: NULL */
+static const char *dbad;
+static char dbuf[160];
+static int show_stk;
+
+static char *k5(long i, char *b)      /* fixed-width five-letter key whose order is the order of i */
+{
+    int k;
+    for (k = 4; k >= 0; k--) { b[k] = (char) ('a' + i % 26); i /= 26; }
+    b[5] = 0;
+    return b;
+}
+static char *keyat(long p, char *b) { return k5(2 * p + 2, b); }          /* key of position p (odd codes lie between) */
+static char *valat(long p, char *b) { b[0] = 'v'; k5(2 * p + 2, b + 1); return b; }
+static int txt_is(spif_obj_t o, const char *t)
+{
+    return o && SPIF_OBJ_CLASS(o) == SPIF_CLASS(SPIF_STRCLASS_VAR(str)) && !strcmp((const char *) SPIF_STR_STR(SPIF_STR(o)), t);
+}
+static int pair_is(spif_obj_t o, const char *k, const char *v)
+{
+    return o && SPIF_OBJ_IS_OBJPAIR(o) && txt_is(SPIF_OBJPAIR(o)->key, k) && txt_is(SPIF_OBJPAIR(o)->value, v);
+}
+#define CK(cond, what) do { if (!(cond)) { snprintf(dbuf, sizeof(dbuf), "%s", (what)); dbad = dbuf; goto out; } } while (0)
+#define CKS(call) do { if (!(call)) { dbad = dbuf; goto out; } } while (0)
+#define CKP(cond, what, p) do { if (!(cond)) { snprintf(dbuf, sizeof(dbuf), "%s@%ld", (what), (long) (p)); dbad = dbuf; goto out; } } while (0)
+
+/* stack high-water mark of one scenario (printed only with LV_CONT_STK=1): the region below the caller's
+ * frame is painted before and scanned afterwards */
+#define STK_BYTES (512 * 1024)
+__attribute__((noinline, no_sanitize_address, no_sanitize_undefined)) static long stk_region(int paint)
+{
+    volatile unsigned char *p = (volatile unsigned char *) alloca(STK_BYTES);
+    long i;
+    __asm__ volatile("" : : "r"(p) : "memory");
+    if (paint) { for (i = 0; i < STK_BYTES; i++) p[i] = 0xC3; return 0; }
+    for (i = 0; i < STK_BYTES && p[i] == 0xC3; i++) { }
+    return STK_BYTES - i;
+}
+
+/* position p of list c holds the very object dobj[q] */
+static int deep_list_state(spif_obj_t c)
+{
+    long n = dn;
+    CK((long) SPIF_LIST_COUNT(c) == n, "count");
+    if (n) {
+        CK(SPIF_LIST_GET(c, 0) == dobj[0], "get(0)");
+        CK(SPIF_LIST_GET(c, (spif_listidx_t) (n / 2)) == dobj[n / 2], "get(n/2)");
+        CK(SPIF_LIST_GET(c, (spif_listidx_t) (n - 1)) == dobj[n - 1], "get(n-1)");
+        CK(SPIF_LIST_GET(c, -1) == dobj[n - 1], "get(-1)");
+    }
+    CK(SPIF_LIST_GET(c, (spif_listidx_t) n) == NULL, "get(n)");
+    return 1;
+out:
+    return 0;
+}
+
+static void deep_list(spif_obj_t c, const char *op)
+{
+    long n = dn, k;
+    char b[16];
+    spif_obj_t e = NULL, r;
+    spif_iterator_t it = NULL;
+    spif_obj_t *a = NULL;
+    spif_list_t d = NULL;
+
+    if (!strcmp(op, "build")) {
+        if (cls == CL_LL) { for (k = n - 1; k >= 0; k--) CKP(SPIF_LIST_PREPEND(c, dobj[k]), "prepend", k); }
+        else { for (k = 0; k < n; k++) CKP(SPIF_LIST_APPEND(c, dobj[k]), "append", k); }
+        CKS(deep_list_state(c));
+    } else if (!strcmp(op, "get")) {
+        CKS(deep_list_state(c));
+    } else if (!strcmp(op, "iterate")) {
+        it = SPIF_LIST_ITERATOR(c);
+        CK(!SPIF_ITERATOR_ISNULL(it), "iterator");
+        for (k = 0; k < n; k++) {
+            CKP(SPIF_ITERATOR_HAS_NEXT(it), "has_next", k);
+            CKP(SPIF_ITERATOR_NEXT(it) == dobj[k], "next", k);
+        }
+        CK(!SPIF_ITERATOR_HAS_NEXT(it), "has_next(end)");
+        CK(SPIF_ITERATOR_NEXT(it) == NULL, "next(end)");
+    } else if (!strcmp(op, "to_array")) {
+        a = SPIF_LIST_TO_ARRAY(c);
+        CK(a || !n, "to_array");
+        for (k = 0; k < n; k++) CKP(a[k] == dobj[k], "to_array", k);
+    } else if (!strcmp(op, "dup")) {
+        d = SPIF_LIST_DUP(c);
+        CK(!SPIF_LIST_ISNULL(d), "dup");
+        CK((long) SPIF_LIST_COUNT(d) == n, "dup.count");
+        it = SPIF_LIST_ITERATOR(d);
+        CK(!SPIF_ITERATOR_ISNULL(it), "dup.iterator");
+        for (k = 0; k < n; k++) {
+            CKP(SPIF_ITERATOR_HAS_NEXT(it), "dup.has_next", k);
+            r = SPIF_ITERATOR_NEXT(it);
+            CKP(r != dobj[k] && txt_is(r, keyat(k, b)), "dup.next", k);
+        }
+        CK(!SPIF_ITERATOR_HAS_NEXT(it), "dup.has_next(end)");
+        if (n) {
+            CK(txt_is(SPIF_LIST_GET(d, (spif_listidx_t) (n - 1)), keyat(n - 1, b)), "dup.get(n-1)");
+            CK(txt_is(SPIF_LIST_GET(d, 0), keyat(0, b)), "dup.get(0)");
+            CK(txt_is(SPIF_LIST_GET(d, (spif_listidx_t) (n / 2)), keyat(n / 2, b)), "dup.get(n/2)");
+        }
+        CKS(deep_list_state(c));
+    } else if (!strcmp(op, "reverse")) {
+        CK(SPIF_LIST_REVERSE(c), "reverse");
+        CK((long) SPIF_LIST_COUNT(c) == n, "reverse.count");
+        if (n) {
+            CK(SPIF_LIST_GET(c, 0) == dobj[n - 1], "reverse.get(0)");
+            CK(SPIF_LIST_GET(c, (spif_listidx_t) (n - 1)) == dobj[0], "reverse.get(n-1)");
+            CK(SPIF_LIST_GET(c, (spif_listidx_t) (n / 2)) == dobj[n - 1 - n / 2], "reverse.get(n/2)");
+        }
+        it = SPIF_LIST_ITERATOR(c);
+        CK(!SPIF_ITERATOR_ISNULL(it), "reverse.iterator");
+        for (k = 0; k < n; k++) CKP(SPIF_ITERATOR_NEXT(it) == dobj[n - 1 - k], "reverse.next", k);
+        CK(!SPIF_ITERATOR_HAS_NEXT(it), "reverse.has_next(end)");
+        CK(SPIF_LIST_REVERSE(c), "reverse2");
+        CKS(deep_list_state(c));
+    } else if (!strcmp(op, "find_last") && n) {
+        e = mk_str(keyat(n - 1, b));
+        CK((long) SPIF_LIST_INDEX(c, e) == n - 1, "index(last)");
+        CK(SPIF_LIST_FIND(c, e) == dobj[n - 1], "find(last)");
+        CK(SPIF_LIST_CONTAINS(c, e), "contains(last)");
+        CK((long) SPIF_LIST_INDEX(c, dobj[n - 1]) == n - 1, "index(own last)");
+        SPIF_OBJ_DEL(e);
+        e = mk_str(k5(2 * n + 3, b));
+        CK((long) SPIF_LIST_INDEX(c, e) == -1, "index(absent)");
+        CK(SPIF_LIST_FIND(c, e) == NULL, "find(absent)");
+        CK(!SPIF_LIST_CONTAINS(c, e), "contains(absent)");
+    } else if (!strcmp(op, "remove_last") && n) {
+        e = mk_str(keyat(n - 1, b));
+        r = SPIF_LIST_REMOVE(c, e);
+        CK(r == dobj[n - 1], "remove(last)");
+        CK((long) SPIF_LIST_COUNT(c) == n - 1, "remove.count");
+        CK(SPIF_LIST_GET(c, (spif_listidx_t) (n - 1)) == NULL, "remove.get(n-1)");
+        if (n > 1) CK(SPIF_LIST_GET(c, -1) == dobj[n - 2], "remove.get(-1)");
+        CK(SPIF_LIST_APPEND(c, r), "append(back)");
+        CKS(deep_list_state(c));
+    } else if (!strcmp(op, "remove_at_last") && n) {
+        r = SPIF_LIST_REMOVE_AT(c, (spif_listidx_t) (n - 1));
+        CK(r == dobj[n - 1], "remove_at(n-1)");
+        CK((long) SPIF_LIST_COUNT(c) == n - 1, "remove_at.count");
+        CK(SPIF_LIST_REMOVE_AT(c, (spif_listidx_t) (n - 1)) == NULL, "remove_at(n-1) again");
+        CK(SPIF_LIST_INSERT_AT(c, r, (spif_listidx_t) (n - 1)), "insert_at(n-1)");
+        CKS(deep_list_state(c));
+    } else if (!strcmp(op, "insert_last") && n) {
+        /* the ordered insert of a key above all others walks the whole (ascending) list */
+        e = mk_str(k5(2 * n + 3, b));
+        CK(SPIF_LIST_INSERT(c, e), "insert(top)");
+        r = e; e = NULL;                /* now the list's */
+        CK((long) SPIF_LIST_COUNT(c) == n + 1, "insert.count");
+        CK(SPIF_LIST_GET(c, (spif_listidx_t) n) == r, "insert.get(n)");
+        CK(SPIF_LIST_REMOVE_AT(c, -1) == r, "remove_at(-1)");
+        e = r;
+        CKS(deep_list_state(c));
+    } else CK(0, "unknown-scenario");
+out:
+    if (e) SPIF_OBJ_DEL(e);
+    if (it) SPIF_ITERATOR_DEL(it);
+    if (a) free(a);
+    if (d) SPIF_LIST_DEL(d);
+}
+
+static int deep_vector_state(spif_obj_t c)
+{
+    CK((long) (size_t) SPIF_VECTOR_COUNT(c) == dn, "count");
+    return 1;
+out:
+    return 0;
+}
+
+static void deep_vector(spif_obj_t c, const char *op)
+{
+    long n = dn, k;
+    char b[16];
+    spif_obj_t e = NULL, r;
+    spif_iterator_t it = NULL;
+    spif_obj_t *a = NULL, *a2 = NULL;
+    spif_vector_t d = NULL;
+
+    if (!strcmp(op, "build")) {
+        /* array, linked_list: descending (each element lands at the front); dlinked_list: ascending (at the tail) */
+        if (cls == CL_DLL) { for (k = 0; k < n; k++) CKP(SPIF_VECTOR_INSERT(c, dobj[k]), "insert", k); }
+        else { for (k = n - 1; k >= 0; k--) CKP(SPIF_VECTOR_INSERT(c, dobj[k]), "insert", k); }
+        CKS(deep_vector_state(c));
+    } else if (!strcmp(op, "iterate")) {
+        it = SPIF_VECTOR_ITERATOR(c);
+        CK(!SPIF_ITERATOR_ISNULL(it), "iterator");
+        for (k = 0; k < n; k++) {
+            CKP(SPIF_ITERATOR_HAS_NEXT(it), "has_next", k);
+            CKP(SPIF_ITERATOR_NEXT(it) == dobj[k], "next", k);
+        }
+        CK(!SPIF_ITERATOR_HAS_NEXT(it), "has_next(end)");
+        CK(SPIF_ITERATOR_NEXT(it) == NULL, "next(end)");
+    } else if (!strcmp(op, "to_array")) {
+        CKS(deep_vector_state(c));
+        a = SPIF_VECTOR_TO_ARRAY(c);
+        CK(a || !n, "to_array");
+        for (k = 0; k < n; k++) CKP(a[k] == dobj[k], "to_array", k);
+    } else if (!strcmp(op, "dup")) {
+        d = SPIF_VECTOR_DUP(c);
+        CK(!SPIF_VECTOR_ISNULL(d), "dup");
+        CK((long) (size_t) SPIF_VECTOR_COUNT(d) == n, "dup.count");
+        a2 = SPIF_VECTOR_TO_ARRAY(d);
+        CK(a2 || !n, "dup.to_array");
+        for (k = 0; k < n; k++) CKP(a2[k] != dobj[k] && txt_is(a2[k], keyat(k, b)), "dup.to_array", k);
+        it = SPIF_VECTOR_ITERATOR(d);
+        CK(!SPIF_ITERATOR_ISNULL(it), "dup.iterator");
+        for (k = 0; k < n; k++) CKP(SPIF_ITERATOR_NEXT(it) == a2[k], "dup.next", k);
+        CK(!SPIF_ITERATOR_HAS_NEXT(it), "dup.has_next(end)");
+        if (n) {
+            e = mk_str(keyat(n - 1, b));
+            CK(SPIF_VECTOR_FIND(d, e) == a2[n - 1], "dup.find(last)");
+        }
+        CKS(deep_vector_state(c));
+    } else if (!strcmp(op, "find_last") && n) {
+        e = mk_str(keyat(n - 1, b));
+        CK(SPIF_VECTOR_FIND(c, e) == dobj[n - 1], "find(last)");
+        CK(SPIF_VECTOR_CONTAINS(c, e), "contains(last)");
+        CK(SPIF_VECTOR_FIND(c, dobj[n - 1]) == dobj[n - 1], "find(own last)");
+        SPIF_OBJ_DEL(e);
+        e = mk_str(k5(2 * n + 3, b));
+        CK(SPIF_VECTOR_FIND(c, e) == NULL, "find(above)");
+        CK(!SPIF_VECTOR_CONTAINS(c, e), "contains(above)");
+        SPIF_OBJ_DEL(e);
+        e = mk_str(k5(2 * n - 1, b));
+        CK(SPIF_VECTOR_FIND(c, e) == NULL, "find(between)");
+        SPIF_OBJ_DEL(e);
+        e = mk_str(keyat(n / 2, b));
+        CK(SPIF_VECTOR_FIND(c, e) == dobj[n / 2], "find(middle)");
+        SPIF_OBJ_DEL(e);
+        e = mk_str(keyat(0, b));
+        CK(SPIF_VECTOR_FIND(c, e) == dobj[0], "find(first)");
+    } else if (!strcmp(op, "insert_last") && n) {
+        spif_obj_t probe, mine;
+        e = mk_str(k5(2 * n + 3, b));
+        CK(SPIF_VECTOR_INSERT(c, e), "insert(top)");
+        mine = e; e = NULL;             /* now the vector's */
+        CK((long) (size_t) SPIF_VECTOR_COUNT(c) == n + 1, "insert.count");
+        probe = mk_str(k5(2 * n + 3, b));
+        r = SPIF_VECTOR_FIND(c, probe);
+        if (r == mine) r = SPIF_VECTOR_REMOVE(c, probe); else r = NULL;
+        SPIF_OBJ_DEL(probe);
+        CK(r == mine, "find/remove(top)");
+        e = mine;
+        CKS(deep_vector_state(c));
+    } else if (!strcmp(op, "remove_last") && n) {
+        e = mk_str(keyat(n - 1, b));
+        r = SPIF_VECTOR_REMOVE(c, e);
+        CK(r == dobj[n - 1], "remove(last)");
+        CK((long) (size_t) SPIF_VECTOR_COUNT(c) == n - 1, "remove.count");
+        CK(SPIF_VECTOR_FIND(c, e) == NULL, "remove.find(last)");
+        CK(SPIF_VECTOR_INSERT(c, r), "insert(back)");
+        CK(SPIF_VECTOR_FIND(c, e) == dobj[n - 1], "insert(back).find");
+        CKS(deep_vector_state(c));
+    } else CK(0, "unknown-scenario");
+out:
+    if (e) SPIF_OBJ_DEL(e);
+    if (it) SPIF_ITERATOR_DEL(it);
+    if (a) free(a);
+    if (a2) free(a2);
+    if (d) SPIF_VECTOR_DEL(d);
+}
+
+/* a list the map handed back: n items with the expected texts, in order (walked with the list's iterator) */
+static int deep_map_list(spif_list_t l, int what)
+{
+    long n = dn, k;
+    char b[16], b2[16];
+    spif_iterator_t it = NULL;
+    spif_obj_t r;
+    CK(!SPIF_LIST_ISNULL(l), "NULL");
+    CK((long) SPIF_LIST_COUNT(l) == n, "count");
+    it = SPIF_LIST_ITERATOR(l);
+    CK(!SPIF_ITERATOR_ISNULL(it), "iterator");
+    for (k = 0; k < n; k++) {
+        r = SPIF_ITERATOR_NEXT(it);
+        CKP(what == 0 ? txt_is(r, keyat(k, b)) : what == 1 ? txt_is(r, valat(k, b2)) : pair_is(r, keyat(k, b), valat(k, b2)), "item", k);
+    }
+    CK(!SPIF_ITERATOR_HAS_NEXT(it), "has_next(end)");
+    SPIF_ITERATOR_DEL(it);
+    return 1;
+out:
+    if (it) SPIF_ITERATOR_DEL(it);
+    return 0;
+}
+
+static void deep_map(spif_obj_t c, const char *op)
+{
+    long n = dn, k;
+    char b[16], b2[16], msg[100];
+    spif_obj_t e = NULL, v = NULL, r, r2;
+    spif_iterator_t it = NULL, it2 = NULL;
+    spif_list_t l = NULL;
+    spif_map_t d = NULL;
+
+    if (!strcmp(op, "build")) {
+        /* every set first probes the whole map for the key, so a step is linear in all three classes;
+           linked_list: descending keys (the new pair lands at the front); array, dlinked_list: ascending */
+        for (k = 0; k < n; k++) {
+            long p = (cls == CL_LL) ? n - 1 - k : k;
+            e = mk_str(keyat(p, b));
+            v = mk_str(valat(p, b2));
+            CKP(!SPIF_MAP_SET(c, e, v), "set", p);
+            SPIF_OBJ_DEL(e); e = NULL;
+            SPIF_OBJ_DEL(v); v = NULL;
+        }
+        CK((long) (size_t) SPIF_MAP_COUNT(c) == n, "count");
+    } else if (!strcmp(op, "iterate")) {
+        CK((long) (size_t) SPIF_MAP_COUNT(c) == n, "count");
+        it = SPIF_MAP_ITERATOR(c);
+        CK(!SPIF_ITERATOR_ISNULL(it), "iterator");
+        for (k = 0; k < n; k++) {
+            CKP(SPIF_ITERATOR_HAS_NEXT(it), "has_next", k);
+            CKP(pair_is(SPIF_ITERATOR_NEXT(it), keyat(k, b), valat(k, b2)), "next", k);
+        }
+        CK(!SPIF_ITERATOR_HAS_NEXT(it), "has_next(end)");
+        CK(SPIF_ITERATOR_NEXT(it) == NULL, "next(end)");
+    } else if (!strcmp(op, "get_keys") || !strcmp(op, "get_values") || !strcmp(op, "get_pairs")) {
+        int what = !strcmp(op, "get_keys") ? 0 : !strcmp(op, "get_values") ? 1 : 2;
+        l = what == 0 ? SPIF_MAP_GET_KEYS(c, (spif_list_t) NULL) : what == 1 ? SPIF_MAP_GET_VALUES(c, (spif_list_t) NULL) : SPIF_MAP_GET_PAIRS(c, (spif_list_t) NULL);
+        if (!deep_map_list(l, what)) { snprintf(msg, sizeof(msg), "%s.%s", op, dbuf); CK(0, msg); }
+    } else if (!strcmp(op, "get_keys_into") || !strcmp(op, "get_values_into") || !strcmp(op, "get_pairs_into")) {
+        /* receiving list of the class whose append is O(1) per step */
+        int what = !strcmp(op, "get_keys_into") ? 0 : !strcmp(op, "get_values_into") ? 1 : 2;
+        spif_list_t got;
+        l = SPIF_LIST_NEW(dlinked_list);
+        got = what == 0 ? SPIF_MAP_GET_KEYS(c, l) : what == 1 ? SPIF_MAP_GET_VALUES(c, l) : SPIF_MAP_GET_PAIRS(c, l);
+        CK(got == l, "other list returned");
+        if (!deep_map_list(l, what)) { snprintf(msg, sizeof(msg), "%s.%s", op, dbuf); CK(0, msg); }
+    } else if (!strcmp(op, "dup")) {
+        d = SPIF_MAP_DUP(c);
+        CK(!SPIF_MAP_ISNULL(d), "dup");
+        CK((long) (size_t) SPIF_MAP_COUNT(d) == n, "dup.count");
+        it = SPIF_MAP_ITERATOR(d);
+        it2 = SPIF_MAP_ITERATOR(c);
+        CK(!SPIF_ITERATOR_ISNULL(it) && !SPIF_ITERATOR_ISNULL(it2), "dup.iterator");
+        for (k = 0; k < n; k++) {
+            r = SPIF_ITERATOR_NEXT(it);
+            r2 = SPIF_ITERATOR_NEXT(it2);
+            CKP(r != r2 && pair_is(r, keyat(k, b), valat(k, b2)) && pair_is(r2, b, b2)
+                && SPIF_OBJPAIR(r)->key != SPIF_OBJPAIR(r2)->key && SPIF_OBJPAIR(r)->value != SPIF_OBJPAIR(r2)->value, "dup.next", k);
+        }
+        CK(!SPIF_ITERATOR_HAS_NEXT(it) && !SPIF_ITERATOR_HAS_NEXT(it2), "dup.has_next(end)");
+        if (n) {
+            e = mk_str(keyat(n - 1, b));
+            CK(txt_is(SPIF_MAP_GET(d, e), valat(n - 1, b2)), "dup.get(last)");
+        }
+    } else if (!strcmp(op, "get_last") && n) {
+        e = mk_str(keyat(n - 1, b));
+        CK(txt_is(SPIF_MAP_GET(c, e), valat(n - 1, b2)), "get(last)");
+        CK(SPIF_MAP_HAS_KEY(c, e), "has_key(last)");
+        SPIF_OBJ_DEL(e);
+        e = mk_str(valat(n - 1, b2));
+        CK(SPIF_MAP_HAS_VALUE(c, e), "has_value(last)");
+        CK(!SPIF_MAP_HAS_KEY(c, e), "has_key(a value)");
+        SPIF_OBJ_DEL(e);
+        e = mk_str(k5(2 * n + 3, b));
+        CK(SPIF_MAP_GET(c, e) == NULL, "get(above)");
+        CK(!SPIF_MAP_HAS_KEY(c, e), "has_key(above)");
+        CK(!SPIF_MAP_HAS_VALUE(c, e), "has_value(absent)");
+        SPIF_OBJ_DEL(e);
+        e = mk_str(keyat(n / 2, b));
+        CK(txt_is(SPIF_MAP_GET(c, e), valat(n / 2, b2)), "get(middle)");
+        SPIF_OBJ_DEL(e);
+        e = mk_str(keyat(0, b));
+        CK(txt_is(SPIF_MAP_GET(c, e), valat(0, b2)), "get(first)");
+    } else if (!strcmp(op, "set_last") && n) {
+        e = mk_str(k5(2 * n + 3, b));
+        v = mk_str("top");
+        CK(!SPIF_MAP_SET(c, e, v), "set(top)");
+        CK((long) (size_t) SPIF_MAP_COUNT(c) == n + 1, "set.count");
+        CK(txt_is(SPIF_MAP_GET(c, e), "top"), "set.get(top)");
+        CK(SPIF_MAP_GET(c, e) != v, "set stored the caller's value");
+        r = SPIF_MAP_REMOVE(c, e);
+        CK(pair_is(r, b, "top"), "remove(top)");
+        SPIF_OBJ_DEL(r);
+        CK((long) (size_t) SPIF_MAP_COUNT(c) == n, "remove.count");
+        SPIF_OBJ_DEL(e);
+        e = mk_str(keyat(n - 1, b));
+        CK(SPIF_MAP_SET(c, e, v), "set(last, again)");
+        CK(txt_is(SPIF_MAP_GET(c, e), "top"), "set(last).get");
+        SPIF_OBJ_DEL(v);
+        v = mk_str(valat(n - 1, b2));
+        CK(SPIF_MAP_SET(c, e, v), "set(last, back)");
+        CK((long) (size_t) SPIF_MAP_COUNT(c) == n, "set(last).count");
+    } else if (!strcmp(op, "remove_last") && n) {
+        e = mk_str(keyat(n - 1, b));
+        v = mk_str(valat(n - 1, b2));
+        r = SPIF_MAP_REMOVE(c, e);
+        CK(pair_is(r, b, b2), "remove(last)");
+        SPIF_OBJ_DEL(r);
+        CK((long) (size_t) SPIF_MAP_COUNT(c) == n - 1, "remove.count");
+        CK(SPIF_MAP_GET(c, e) == NULL, "remove.get(last)");
+        CK(SPIF_MAP_REMOVE(c, e) == NULL, "remove(last) again");
+        CK(!SPIF_MAP_SET(c, e, v), "set(back)");
+        CK((long) (size_t) SPIF_MAP_COUNT(c) == n, "set(back).count");
+    } else CK(0, "unknown-scenario");
+out:
+    if (e) SPIF_OBJ_DEL(e);
+    if (v) SPIF_OBJ_DEL(v);
+    if (it) SPIF_ITERATOR_DEL(it);
+    if (it2) SPIF_ITERATOR_DEL(it2);
+    if (l) SPIF_LIST_DEL(l);
+    if (d) SPIF_MAP_DEL(d);
+}
+
+static void deep_step(spif_obj_t c, const char *name)
+{
+    long hw = 0;
+    printf("%s=", name);
+    fflush(stdout);                     /* a crash completes this step with FAULT:... */
+    dbad = NULL;
+    if (show_stk) stk_region(1);
+    if (!strcmp(name, "del")) { if (!SPIF_OBJ_DEL(c)) dbad = "del"; }
+    else if (iface == IF_LIST) deep_list(c, name);
+    else if (iface == IF_VECTOR) deep_vector(c, name);
+    else deep_map(c, name);
+    if (show_stk) hw = stk_region(0);
+    if (dbad) printf("BAD(%s)|", dbad); else printf("ok|");
+    if (show_stk) printf("stk=%ld", hw);
+    printf(" ; ");
+}
+
+static void run_deep(char **ops, int nops)
+{
+    struct rlimit rl;
+    spif_obj_t c;
+    long k;
+    char b[16];
+    const char *e = getenv("LV_CONT_STK");
+    int j;
+
+    show_stk = (e && e[0] && e[0] != '0');
+    dn = atol(ops[0] + 5);
+    if (dn < 0 || dn > 4000000) { printf("HARNESS-ERROR:bad-size"); return; }
+    /* the default 8 MB stack (lowered to it when the environment allows more) */
+    if (!getrlimit(RLIMIT_STACK, &rl) && (rl.rlim_cur == RLIM_INFINITY || rl.rlim_cur > (rlim_t) 8 << 20)) {
+        rl.rlim_cur = (rlim_t) 8 << 20;
+        setrlimit(RLIMIT_STACK, &rl);
+    }
+    alarm(dn > 500000 ? 120 : 60);
+    dobj = NULL;
+    if (iface != IF_MAP) {
+        dobj = (spif_obj_t *) malloc(sizeof(spif_obj_t) * (size_t) (dn ? dn : 1));
+        for (k = 0; k < dn; k++) dobj[k] = mk_str(keyat(k, b));
+    }
+    c = new_container();
+    if (!c) { printf("HARNESS-ERROR:new"); return; }
+    deep_step(c, "build");
+    for (j = 1; j < nops && !dbad; j++) deep_step(c, ops[j]);
+    /* tear-down: the container deletes what it holds */
+    deep_step(c, "del");
+    if (dobj) free(dobj);
+    printf("end");
+}
+
 static void run_case(int ntok, char **tok)
 {
     static char *ops[MAXENT];
@@ -630,6 +1123,7 @@ static void run_case(int ntok, char **tok)
     cont[1] = (spif_obj_t) NULL;
     if (!cont[0]) { printf("HARNESS-ERROR:new"); return; }
     nops = split_on(tok[2], ';', ops, MAXENT);
+    if (!strncmp(ops[0], "deep:", 5)) { SPIF_OBJ_DEL(cont[0]); run_deep(ops, nops); return; }
     for (k = 0; k < nops; k++) {
         char *o = ops[k];
         quiet = (o[0] == '~');
@@ -698,6 +1192,7 @@ static void classify(const char *rep, int status, char *out, size_t n)
         if (!strcmp(kind, "heap-use-after-free")) snprintf(out, n, "FAULT:Use_after_free");
         else if (!strcmp(kind, "SEGV")) snprintf(out, n, "FAULT:Null_deref:SEGV");
         else if (!strcmp(kind, "attempting") || !strcmp(kind, "double-free") || !strcmp(kind, "bad-free")) snprintf(out, n, "FAULT:Bad_free:%s", kind);
+        else if (!strcmp(kind, "stack-overflow")) snprintf(out, n, "FAULT:Out_of_fuel:stack-overflow");
         else if (strstr(kind, "overflow") || strstr(kind, "underflow")) snprintf(out, n, "FAULT:%s:%s", strstr(rep, "WRITE of size") ? "OOB_write" : "OOB_read", kind);
         else snprintf(out, n, "FAULT:asan:%s", kind);
     } else if ((p = strstr(rep, "runtime error: "))) {
